@@ -48,7 +48,7 @@ type Work struct {
 	Cut     int    `json:"cut,omitempty"`      // >0: the source text handed to the interpreter ends after this many bytes (a program that arrives truncated)
 }
 
-const nSites = 141
+const nSites = 143
 const nWraps = 7
 
 func siteSrc(k int, id string) string {
@@ -367,6 +367,13 @@ func siteSrc(k int, id string) string {
 	// strings that are longer in bytes than in characters, indexed and sliced with explicit and omitted bounds
 	case 139:
 		return "us" + id + " = \"" + strings.Repeat("é", 40) + "\"\nut" + id + " = \"" + strings.Repeat("日本語", 12) + "\"\nuu" + id + " = \"na\u00efve caf\u00e9, \" * 4\ntry { ua" + id + " = us" + id + "[5:] } catch { }\ntry { ub" + id + " = uu" + id + "[:10] + \"...\" + uu" + id + "[40:] } catch { }\ntry { uc" + id + " = len(ut" + id + "[1:]) } catch { }\ntry { ud" + id + " = us" + id + "[63:] } catch { }\ntry { for ue" + id + " in ut" + id + " { } } catch { }\ntry { uf" + id + " = ut" + id + "[35] } catch { }\ntry { ug" + id + " = us" + id + "[2:79] } catch { }\nh(" + id + ")\nuh" + id + " = ut" + id + "[3:]\nui" + id + " = us" + id + "[:41]"
+	// values a script gets hold of without any host binding whose Go type has unexported fields (the control-flow
+	// signals a catch block sees, the type value make(type ..) evaluates to): a member that scripts cannot have
+	case 140:
+		return "try { break } catch ee" + id + " { try { xa" + id + " = ee" + id + ".s } catch { } }\nfunc xf" + id + "() { try { return 1 } catch ef" + id + " { return ef" + id + ".s } }\ntry { xb" + id + " = [xf" + id + "()] } catch { }\nxt" + id + " = make(type XT" + id + ", 1)\ntry { xc" + id + " = xt" + id + ".t } catch { }\nh(" + id + ")\ntry { continue } catch eg" + id + " { xd" + id + " = {\"k\": eg" + id + ".s} }"
+	// a member of a nil value whose static type is an interface with methods
+	case 141:
+		return "yt" + id + " = make(type YT" + id + ", 1)\nym" + id + " = yt" + id + ".MethodByName(\"nosuch\")\ntry { ya" + id + " = ym" + id + "[0].Type.Name } catch { }\ntry { yb" + id + " = ym" + id + "[0].Type.String() } catch { }\nh(" + id + ")\nyc" + id + " = ym" + id + "[0].Type.Kind"
 	default:
 		return "x" + id + " = hid(1) & hid(\"z\")\ny" + id + " = hid(1.5) | hid(nil)\nz" + id + " = hid({}) ^ 1\nw" + id + " = hid([1, 2]) + hid({\"a\": 1})\nv" + id + " = hid(nil) < hid([1])\nu" + id + " = hid(func() { }) == hid(func() { })"
 	}
